@@ -25,6 +25,7 @@ UNITS = {
     "collide": [()],
     "latest": [()],
     "specbuilder": [TF],
+    "infix": [()],
     "stdw": [("async",)],
 }
 
@@ -39,9 +40,9 @@ PROP_UNITS = {
     "C08": [("state", ())],
     "C09": [("state", ()), ("timestamps", ())],
     "C13": [("logger", TF), ("flw", ()), ("multi", ()), ("primary", ()), ("lh", TF), ("lbuild", ())],
-    "C14": [("state", ()), ("listing", ()), ("naming", ()), ("timestamps", ()), ("cleanup", ()), ("latest", ())],
+    "C14": [("state", ()), ("listing", ()), ("naming", ()), ("timestamps", ()), ("cleanup", ()), ("latest", ()), ("infix", ())],
     "C15": [("state", ()), ("handle", ()), ("flw", ()), ("dispatch", ("async",)), ("handle_async", ("async",)), ("swrite", ()), ("stdw", ("async",)), ("lbuild", ()), ("flw", ("async",))],
-    "C16": [("naming", ()), ("listing", ()), ("state", ()), ("builder", ())],
+    "C16": [("naming", ()), ("listing", ()), ("state", ()), ("builder", ()), ("handle", ()), ("flw", ()), ("multi", ()), ("primary", ()), ("lh", TF)],
     "C18": [("state", ()), ("handle", ()), ("builder", ()), ("lh", TF)],
     "C19": [("state", ()), ("logger", TF), ("multi", ()), ("timestamps", ()), ("swrite", ()), ("lbuild", ())],
     "C20": [("swrite", ()), ("stdw", ("async",)), ("handle_async", ("async",)), ("dnow", ()), ("lbuild", ()), ("builder", ()), ("flw", ())],
